@@ -245,7 +245,11 @@ func genHist(yield func(any)) {
 				}
 				steps = append(steps, st)
 			default:
-				steps = append(steps, Step{Op: "run", Strat: choose(strats)})
+				st := Step{Op: "run", Strat: choose(strats)}
+				steps = append(steps, st)
+				if chance(1, 2) {
+					steps = append(steps, st) // the same flags again: must be a no-op
+				}
 			}
 		}
 		// the history ends with a default run, followed by a second one that must be a no-op
